@@ -270,5 +270,20 @@ CHECKS['C19'] = dict(
     note='Oracle: json.loads. Known findings F18a ("\\/"), F18b (surrogate-pair escapes).',
 )
 
-NOT_APPLICABLE = {p: PENDING for p in ['C03', 'C07',
+CHECKS['C07'] = dict(
+    engine='E4 + E2/E3 side obligations',
+    level='other',
+    ref='DESIGN.md 4 (C07), 5',
+    technique='bounded executable post-condition with an independent ES5 scope resolver (spec/scopes.py) on re-parsed obfuscated output; exhaustive side obligations on the definitions\' scope-marker order and on the generated-name alphabet',
+    text=('The per-scope set algebra of Scope/CatchScope and the infinite name generator are outside the subset of the VC generator, so '
+          'capture-freedom is decided only by a bounded stand-in, labelled so: 23 scoping programs (closures, hoisting, parameters, '
+          'function names, nested catch, labels, accessors, scopes with up to 300/3000 names so that multi-letter names and keyword '
+          'collisions occur) x 12 printer configurations, plus reused printer objects; the binding partition computed by an '
+          'independent resolver must be identical before and after, free/property/top-level names unchanged, no reserved word generated, '
+          'only identifier spellings differ. Decided exhaustively: Declare/Push/Pop marker order of every definition against ES5 scoping, '
+          'ID_CHARS within IdentifierStart, all reserved words passed to the generator.'),
+    note='Oracle: spec/scopes.py. Known finding F15 (var redeclaring a catch parameter). `with`/eval out of scope.',
+)
+
+NOT_APPLICABLE = {p: PENDING for p in ['C03',
                                         ]}
